@@ -71,6 +71,18 @@ def build(ctx):
         b = real(GAS + "b_factor_DAK")(pt["T"], pt["p"], pt["Tpc"], pt["Ppc"], pt["Tstd"], pt["pstd"])
         return d * b, 28.964 * pt["g"] * pt["pstd"] / (10.73159 * (pt["Tstd"] + 459.67) * 5.615)
 
+    def bg_defaults():
+        a = one_path(ctx, GAS + "b_factor_DAK", [T, p, Tpc, Ppc])
+        b = one_path(ctx, GAS + "b_factor_DAK", [T, p, Tpc, Ppc, tm.rconst(60), tm.rconst("14.7")])
+        return a.value, b.value, None, a, b
+
+    def bg_defaults_real(pt):
+        f = real(GAS + "b_factor_DAK")
+        return f(pt["T"], pt["p"], pt["Tpc"], pt["Ppc"]), f(pt["T"], pt["p"], pt["Tpc"], pt["Ppc"], 60.0, 14.7)
+
+    obs.append(cas_ob(ctx, "gas.bg_defaults", "b_factor_DAK with the standard conditions omitted is b_factor_DAK at the library's standard conditions 60 F / 14.7 psia (the conditions every default in gas.py and oil.py names)", bg_defaults,
+                      {k_: v_ for k_, v_ in GASB.items() if k_ not in ("Tstd", "pstd")}, [GAS + "b_factor_DAK"], bg_defaults_real, tol=1e-13, hyp_real=gas_hyp))
+
     obs.append(cas_ob(ctx, "gas.rho_bg_const", "density_DAK * b_factor_DAK == 28.964 gamma p_std / (10.73159 (T_std + 459.67) 5.615): independent of p and Z (same Z in both)", rho_bg, GASB,
                       [GAS + "density_DAK", GAS + "b_factor_DAK"], rho_bg_real, tol=1e-10, hyp_real=gas_hyp))
 
